@@ -6,6 +6,7 @@ import (
 
 	"google.golang.org/protobuf/proto"
 	"google.golang.org/protobuf/reflect/protoreflect"
+	"google.golang.org/protobuf/reflect/protoregistry"
 	"google.golang.org/protobuf/types/known/anypb"
 )
 
@@ -452,7 +453,7 @@ func genC04(seed uint64, run int, tier string) *Case {
 // (values, positions, tape) still come from the seed.
 
 var c04Shapes = []func(r rng, tier string) *Case{
-	shapeCanary, shapeWhereSwitch, shapeTickBetweenNow, shapeTZLiteral, shapePatchShared, shapeStallCompile, shapeClockExact, shapeOrder, shapeTypedCallbacks, shapePatterns, shapeTypeHistory, shapeCallerChanges, shapeZoneElements, shapeBigWalk, shapeRootCollection, shapePermissiveLegacy, shapeLiteralSharing, shapeSharedCollections, shapeMixedNamespaces, shapeBigSets,
+	shapeCanary, shapeWhereSwitch, shapeTickBetweenNow, shapeTZLiteral, shapePatchShared, shapeStallCompile, shapeClockExact, shapeOrder, shapeTypedCallbacks, shapePatterns, shapeTypeHistory, shapeCallerChanges, shapeZoneElements, shapeBigWalk, shapeRootCollection, shapePermissiveLegacy, shapeLiteralSharing, shapeSharedCollections, shapeMixedNamespaces, shapeBigSets, shapeTwinTypesA, shapeTwinTypesB,
 }
 
 func baseShape(r rng, tier, name string, types ...string) *genCtx {
@@ -1120,6 +1121,75 @@ func shapeSharedCollections(r rng, tier string) *Case {
 	}
 	return c
 }
+
+// shapeTwinTypes A and B: backbone elements of different resources share their short type names
+// (Patient.contact / Organization.contact, Patient.link / Person.link, Encounter.participant /
+// Appointment.participant, Immunization.performer / Procedure.performer). Whatever a library
+// remembers per TYPE must be remembered per full type. The two shapes are two different runs of
+// every batch, each walking one side of every pair: a forward-order process meets side A first, a
+// reverse-order process side B, and a run's outcome must not depend on which came first (the
+// process-history part of the self-test).
+var twinPairs = [][3]string{{"Patient", "Organization", "contact"}, {"Patient", "Person", "link"}, {"Encounter", "Appointment", "participant"}, {"Immunization", "Procedure", "performer"},
+	{"Claim", "ExplanationOfBenefit", "item"}, {"Questionnaire", "QuestionnaireResponse", "item"}, {"MedicationRequest", "MedicationDispense", "substitution"}}
+
+func shapeTwinTypes(side int) func(r rng, tier string) *Case {
+	return func(r rng, tier string) *Case {
+		var types []string
+		seen := map[string]bool{}
+		for _, p := range twinPairs {
+			if _, err := protoregistry.GlobalTypes.FindMessageByName(protoreflect.FullName(r4 + p[side])); err == nil && !seen[p[side]] {
+				types = append(types, p[side])
+				seen[p[side]] = true
+			}
+		}
+		g := baseShape(r, tier, fmt.Sprintf("twin-types-%c", 'A'+side), types...)
+		c := g.c
+		c.Knobs.NoSched = true
+		// the backbone element itself must be there
+		for _, p := range twinPairs {
+			for i, t := range types {
+				if t != p[side] {
+					continue
+				}
+				m := g.res[i].ProtoReflect()
+				if fd := m.Descriptor().Fields().ByName(protoreflect.Name(p[2])); fd != nil && !m.Has(fd) {
+					rg := &resGen{r: r, maxDepth: 3, fill: 0.7, budget: 40}
+					rg.fillField(m, fd, 1)
+					c.Resources[i] = encodeMessage(g.res[i])
+				}
+			}
+		}
+		type pr struct{ prog, res int }
+		var progs []pr
+		for _, p := range twinPairs {
+			ri := -1
+			for i, t := range types {
+				if t == p[side] {
+					ri = i
+				}
+			}
+			if ri < 0 {
+				continue
+			}
+			for _, f := range []string{"%s.%s.children().count()", "%s.%s.descendants().count()", "%s.descendants().count()", "%s.%s.children()", "%s.children().children().count()", "%s.%s.first().children().select($this.toString()).count()"} {
+				src := fmt.Sprintf(f, p[side], p[2])
+				if strings.Count(f, "%s") == 1 {
+					src = fmt.Sprintf(f, p[side])
+				}
+				c.Programs = append(c.Programs, ProgSpec{Src: src})
+				progs = append(progs, pr{len(c.Programs) - 1, ri})
+			}
+		}
+		var ops []Op
+		for _, p := range progs {
+			ops = append(ops, Op{Kind: "eval", Prog: p.prog, Res: []int{p.res}})
+		}
+		c.Clients = append(c.Clients, ops)
+		return c
+	}
+}
+
+var shapeTwinTypesA, shapeTwinTypesB = shapeTwinTypes(0), shapeTwinTypes(1)
 
 // shapeBigSets: set-like functions on collections large enough for whatever fast path a library may
 // have for them (hashing, sorting, bucketing): the ORDER and content of intersect / exclude /
